@@ -4,7 +4,7 @@ import StraxModel.Model.Rechunk
   `source = level 0 → level 1 → … → level n`, every plugin row-wise with ONE dependency:
 
   * `strax/run_selection.py: define_run`      → `dedup`, `defineRun` (dict de-duplication, stable sort by run start)
-  * `strax/storage/common.py: DataKey._run_id` → `superrunKey` (run name ++ "_" ++ H(sorted subrun spec, combining))
+  * `strax/storage/common.py: DataKey._run_id` → `superrunKey` (run name, H(sorted subrun spec, combining))
   * `strax/context.py: get_components.check_cache` (superrun branch) → `descend`, `concatLoader`, `superGet`
   * `strax/plugins/plugin.py: Plugin.iter / do_compute / superrun_transformation` for one dependency
                                                → `iterStep`, `pluginIter`, `pluginRun`, `compute`
@@ -41,21 +41,26 @@ def superName (name : String) : String := if name.startsWith "_" then name else 
 /-- sorting a dict's items by key: `json.dumps(…, sort_keys=True)`, `hashablize` -/
 def sortIds (spec : List String) : List String := spec.mergeSort (fun a b => decide (a ≤ b))
 
-/-- what `run_metadata(superrun)["sub_run_spec"]` iterates over after `define_run`: the only frontend that can
-define runs, `DataDirectory.write_run_metadata`, dumps the run document with `sort_keys=True`, so the order that
-`define_run` computed is replaced by the lexicographic order of the run ids when the document is read back. -/
-def runDocSpec (spec : List String) : List String := sortIds spec
+/-- what `run_metadata(superrun)["sub_run_spec"]` iterates over after `define_run`: the run document is written by
+`DataDirectory.write_run_metadata` (the only frontend that can define runs) with `json.dumps(…)`.  `sortKeys` is
+whether that call passes `sort_keys=True` — regenerated from the source on every run (`Generated/RunDoc.lean`).
+With `sort_keys=True` (the code before fix D27) the order computed by `define_run` is replaced by the lexicographic
+order of the run ids when the document is read back. -/
+def runDocSpec (sortKeys : Bool) (spec : List String) : List String := if sortKeys then sortIds spec else spec
 
 /-- `define_run` followed by reading the run document back -/
-def definedSpec (docs : List (String × Int)) (data : List String) : Except Err (List String) := do
-  pure (runDocSpec (← defineRun docs data))
+def definedSpec (sortKeys : Bool) (docs : List (String × Int)) (data : List String) : Except Err (List String) := do
+  pure (runDocSpec sortKeys (← defineRun docs data))
 
 /-! ### `DataKey._run_id` -/
 
-/-- `run_id + "_" + deterministic_hash((subruns, combining))`; `H` stands for the hash (assumed injective by
-the theorems that need it, passed explicitly). -/
-def superrunKey (H : List String → Bool → String) (name : String) (spec : List String) (combining : Bool) : String :=
-  name ++ ("_" ++ H (sortIds spec) combining)
+/-- `run_id + "_" + deterministic_hash((subruns, combining))`, kept as the pair (run id, hash).  `H` stands for
+the hash: any function into any type `κ` — the theorems that need it assume it injective (an explicit hypothesis,
+never an axiom); the driver instantiates it with an injective printing. -/
+abbrev Key (κ : Type) := String × κ
+
+def superrunKey {κ : Type} (H : List String → Bool → κ) (name : String) (spec : List String) (combining : Bool) : Key κ :=
+  (name, H (sortIds spec) combining)
 
 /-! ### the plugin chain -/
 
@@ -199,12 +204,12 @@ def concatLoader (w : World) (spec : List String) (j : Nat) : Except Err (List C
 /-! ### `get_components` / processing of a superrun -/
 
 /-- stored superrun data: (key run id, data type) ↦ chunks as saved -/
-abbrev Store := List ((String × String) × List Chunk)
+abbrev Store (κ : Type) := List ((Key κ × String) × List Chunk)
 
 /-- `check_cache` walking down from the target (`rev` = levels `n, n-1, …, 0`): a stored level is loaded, a level
 that does not allow superruns (or any level when `combining`) is fed by the concat loader of the subruns, any
 other level is computed from the level below.  Result: base stream and the levels to compute (bottom first). -/
-def descend (w : World) (spec : List String) (key : String) (store : Store) (combining : Bool) :
+def descend {κ : Type} [DecidableEq κ] (w : World) (spec : List String) (key : Key κ) (store : Store κ) (combining : Bool) :
     List Level → Except Err (List Chunk × List Level)
   | [] => throw Err.runtimeError                  -- a plugin without dependencies cannot allow superruns
   | lv :: below =>
@@ -224,7 +229,7 @@ def runLevels (runId : String) : List Level → List Chunk → Except Err (List 
     let more ← runLevels runId rest out
     pure ((lv, out) :: more)
 
-def saveAll (argmin0 : Int) (key runId : String) : List (Level × List Chunk) → Store → Except Err Store
+def saveAll {κ : Type} (argmin0 : Int) (key : Key κ) (runId : String) : List (Level × List Chunk) → Store κ → Except Err (Store κ)
   | [], st => pure st
   | (lv, out) :: rest, st => do
     let s ← save argmin0 lv runId out
@@ -237,14 +242,14 @@ def topOutput (outs : List (Level × List Chunk)) (base : List Chunk) : List Chu
   | none => base
 
 /-- the savers: every computed level is saved when `write_superruns` is set -/
-def storeAfter (argmin0 : Int) (key runId : String) (write : Bool) (outs : List (Level × List Chunk)) (store : Store) :
-    Except Err Store :=
+def storeAfter {κ : Type} (argmin0 : Int) (key : Key κ) (runId : String) (write : Bool) (outs : List (Level × List Chunk))
+    (store : Store κ) : Except Err (Store κ) :=
   if write then saveAll argmin0 key runId outs store else pure store
 
 /-- `get_iter(superrun, target = level n, combining=…)` with `write_superruns = write`: the yielded chunks and
 the storage afterwards. -/
-def superGet (H : List String → Bool → String) (w : World) (spec : List String) (store : Store) (n : Nat)
-    (combining write : Bool) : Except Err (List Chunk × Store) :=
+def superGet {κ : Type} [DecidableEq κ] (H : List String → Bool → κ) (w : World) (spec : List String) (store : Store κ) (n : Nat)
+    (combining write : Bool) : Except Err (List Chunk × Store κ) :=
   match w.levels[n]? with
   | none => throw Err.keyError
   | some top =>
@@ -259,7 +264,7 @@ def superGet (H : List String → Bool → String) (w : World) (spec : List Stri
       pure (topOutput outs p.1, store)
 
 /-- `is_stored(superrun, level n)` under the current definition -/
-def isStored (H : List String → Bool → String) (w : World) (spec : List String) (store : Store) (n : Nat)
+def isStored {κ : Type} [DecidableEq κ] (H : List String → Bool → κ) (w : World) (spec : List String) (store : Store κ) (n : Nat)
     (combining : Bool) : Bool :=
   match w.levels[n]? with
   | none => false
